@@ -6,6 +6,7 @@ mod props;
 mod recorder;
 mod rng;
 mod schemas;
+mod valcases;
 
 use serde_json::json;
 use std::io::Write;
@@ -34,9 +35,14 @@ fn main() {
     match cmd {
         // gen <kind> <tier> <out> <corpusdir>
         "gen" => {
-            let thorough = args[3] == "thorough";
-            props::generate(&args[2], thorough, env_seed(), &args[5], &mut out);
-            out.write(&args[4]);
+            let a = args.clone();
+            let h = std::thread::Builder::new().stack_size(512 << 20).spawn(move || {
+                let mut out = Out { lines: vec![] };
+                let thorough = a[3] == "thorough";
+                props::generate(&a[2], thorough, env_seed(), &a[5], &mut out);
+                out.write(&a[4]);
+            }).unwrap();
+            if h.join().is_err() { std::process::exit(3); }
         }
         // replay <kind> <replay.json> <out>
         "replay" => {
@@ -46,6 +52,15 @@ fn main() {
             out.schema(&si);
             props::one_case(&args[2], &si, &rep["input"], &mut out);
             out.write(&args[4]);
+        }
+        // validate-one <schema-file> <doc-file> full|nomerge   (child process of observe_isolated)
+        "validate-one" => {
+            let st = std::fs::read_to_string(&args[2]).unwrap();
+            let dt = std::fs::read_to_string(&args[3]).unwrap();
+            let schema = graphql_tools::parser::parse_schema::<String>(&st).unwrap().into_static();
+            let doc = graphql_tools::parser::parse_query::<String>(&dt).unwrap().into_static();
+            println!("{}", valcases::observe(&schema, &doc, args[4] == "nomerge"));
+            return;
         }
         _ => { eprintln!("usage: gqlv gen KIND TIER OUT CORPUS | gqlv replay KIND FILE OUT"); std::process::exit(2); }
     }
